@@ -202,7 +202,10 @@ def run(prog: Program, rep, tier="quick"):
     rmdir = [i for i, n in g.nodes.items() for c in __import__("sa.cfg", fromlist=["node_calls"]).node_calls(n) if dotted(c.func) == "os.rmdir"]
     from sa.flow import must_pass as _mp
     # the loop may legitimately end before reaching rmdir when the name has no parent below refs/: accept the loop head
-    heads = [i for i, n in g.nodes.items() if n.kind == "stmt" and isinstance(n.ast, (ast.Assign,)) and "rsplit" in norm(n.ast)]
+    # (any node of the loop that contains the rmdir counts - its test, its first statement - however the loop is spelled)
+    loops8 = [w for w in ast.walk(rf.node) if isinstance(w, (ast.While, ast.For)) and any(isinstance(c, ast.Call) and dotted(c.func) == "os.rmdir" for c in ast.walk(w))]
+    inner = {id(x) for w in loops8 for x in ast.walk(w)}
+    heads = [i for i, n in g.nodes.items() if n.ast is not None and id(n.ast) in inner]
     bad = _mp(g, rets, set(rmdir) | set(heads))
     rep.ob("R16.8", REFS_PY, rf.qual, "every successful delete passes the empty-parent-directory cleanup", bool(rets) and bool(rmdir) and not bad,
            "a `return True` is reachable without the cleanup of parent directories: an empty directory (left by the lock "
